@@ -24,8 +24,8 @@ ASSUMPTIONS = [
     "max_k <= n_train-1; a model whose fit raises is skipped and counted",
 ]
 BUDGET = {
-    "quick": {"cases": 1600, "seconds": 60, "shards": 8},
-    "thorough": {"cases": 24000, "seconds": 540, "shards": 16},
+    "quick": {"cases": 6400, "seconds": 90, "shards": 8},
+    "thorough": {"cases": 120000, "seconds": 900, "shards": 16},
 }
 REQUIRED_OBS = ["rows_compared", "kind:supervised", "kind:semi", "kind:knn", "kind:unsup", "train_copy_at_own_index", "batch_longer_than_train",
                 "pre_computed_cases", "after_earlier_predicts"]
